@@ -607,8 +607,7 @@ func main() {
 	maxN := 4
 	nRandom := 120
 	if a.Tier == "thorough" {
-		maxN = 5
-		nRandom = 1500
+		nRandom = 800
 	}
 	if a.Search {
 		nRandom *= 6
@@ -624,13 +623,18 @@ func main() {
 			pols = append(pols, enumGate(n)...)
 		}
 		if a.Tier == "thorough" {
-			// 6 holders: threshold/unanimity/hierarchical exhaustively, CNF and gate trees sampled
-			pols = append(pols, enumThreshold(6)...)
-			pols = append(pols, policy{fam: 'U', ids: rangeIDs(1, 6)})
-			pols = append(pols, enumHier(6)...)
-			g6 := enumGate(6)
-			rs := vh.NewRng(a.Seed, "C02", "sample6", 0)
+			// 5 and 6 holders: threshold/unanimity/hierarchical exhaustively, CNF and gate trees sampled
+			rs := vh.NewRng(a.Seed, "C02", "sample56", 0)
+			for n := 5; n <= 6; n++ {
+				pols = append(pols, enumThreshold(n)...)
+				pols = append(pols, policy{fam: 'U', ids: rangeIDs(1, n)})
+				pols = append(pols, enumHier(n)...)
+			}
+			c5, g5, g6 := enumCNF(5), enumGate(5), enumGate(6)
 			for i := 0; i < 400; i++ {
+				pols = append(pols, vh.Pick(rs, c5), vh.Pick(rs, g5))
+			}
+			for i := 0; i < 150; i++ {
 				pols = append(pols, vh.Pick(rs, g6))
 			}
 		}
@@ -697,7 +701,7 @@ func main() {
 	runSchemes(r, fields[0].q, fields[1].q)
 	res.Rule = "KW/MSP: every threshold, unanimity, antichain-CNF, hierarchical layout and gate tree (gates >= 2 children) on <= " +
 		fmt.Sprint(maxN) + " holders x ID assignments (ordinal, sparse unsorted <= 64, >= 2^40 incl. 2^64-1, CNF also 65..300; hierarchical also sorted) x all subsets + permuted/repeated/stranger ID lists, constructor refusals, " +
-		"random policies up to 12 holders (un-normalised CNF input, gate trees with repeated leaves / non-ideal MSPs); secrets 0,1,q-1,random; fields k256 Fq and BLS12-381 Fr; " +
+		"(thorough: both fields everywhere, 5-6 holders: threshold/unanimity/hierarchical exhaustive, 400 sampled 5-holder CNFs, 550 sampled 5/6-leaf gate trees); random policies up to 12 holders (un-normalised CNF input, gate trees with repeated leaves / non-ideal MSPs); secrets 0,1,q-1,random; fields k256 Fq and BLS12-381 Fr; " +
 		"dedicated schemes Shamir/additive/ISN/Tassa on the same policy families. A case is non-trivial when the constructor accepts the policy."
 	res.Write(a.Out)
 }
